@@ -7,7 +7,8 @@ unset GOSUMDB
 mkdir -p bin work evidence replays
 (cd extract && go build -o ../bin/extract .)
 ./bin/extract -repo "${VERIF_REPO:-/repo}" > work/extract.log 2>&1 || true
-(cd lean && lake build SiaModel SiaProofs driver) 
+python3 -c "import importlib.machinery,importlib.util,sys; l=importlib.machinery.SourceFileLoader('chk','./check'); s=importlib.util.spec_from_loader('chk',l); m=importlib.util.module_from_spec(s); l.exec_module(m); m.gen_driver_table()"
+(cd lean && lake build SiaModel SiaProofs driver)
 cp "${VERIF_REPO:-/repo}/go.sum" harness/go.sum
 (cd harness && go build -tags verif -o bin/verif-check ./cmd/verif-check)
 echo "setup ok"
